@@ -1,5 +1,6 @@
 PROP = {
     "id": "C02",
+    "tie2": ["Tie2Secs2Decode"],
     "harness": "c02",
     "driver": "c02",
     "n_quick": 20000,
